@@ -136,6 +136,7 @@ def nested(ck, prog, kind):
         st = setup_vault(it, kind, counter=0)
         c.assume(st['F'] <= st['B'])
         Lo, Li, ri, ro = c.sym('loan_outer', 128), c.sym('loan_inner', 128), c.sym('repay_inner', 128), c.sym('repay_outer', 128)
+        c.assume(Lo <= st['B']); c.assume(Li <= st['B'] - Lo)      # the bank can fund what is lent out
         env = mk_env(it, 10**18)
         def loan(L):
             r = enter(it, 'vault', 'execute', env, mk_info('borrower', []), it.mkv(VX, 'FlashLoan', amount=U128(L), msg=BIN(Str('x'))))
